@@ -30,6 +30,16 @@ def configs(tier, seed):
                 cc.update(harness="tls-cut", name="cut-%s%s-part%d" % (c["name"], "-seg%d" % seg if seg else "", sl), seg_size=seg, records=2,
                           max_len=1, cut_slice=[sl, slices])
                 out.append(cc)
+    from tlv.harness import c02
+    for c in c02.configs(tier, seed):
+        if tier == "quick" and not (c["name"].endswith("cid8.4.8") or c["name"].endswith("cid8.0.8")):
+            continue
+        if tier == "quick" and c["suite"] != 0x1301 and not c["name"].startswith("%04x-basic" % c["suite"]):
+            continue
+        c = dict(c)
+        c["name"] = "cut-quic-" + c["name"]
+        c["harness"] = "quic-cut"
+        out.append(c)
     return out
 
 
@@ -38,7 +48,43 @@ def bounds(tier):
             "scenarios": "C01 pipeline scenarios, one suite per (version, handshake shape) in quick", "N": "<= ~60 packets"}
 
 
+def _run_quic(cfg):
+    from tlv.sx.core import ctx, sym_choice
+    from tlv.harness import pipeline as P, c02
+    from tlv.harness.common import explore_cfg
+    from tlv.oracle import scenario as SC, quic_scenario as QS
+    mods = P.setup_symbolic()
+
+    def scenario():
+        c = ctx()
+        src = SC.SymSrc()
+        dgrams, keylog, meta = QS.build(cfg, src)
+        c02.assume_cids_prefix_free(c, meta)
+        c02.assume_no_accidental_cid(c, meta, dgrams)
+        ep = P.Endpoint(ipv=cfg.get("ipv", 4))
+        frames = P.udp_frames(ep, dgrams)
+        j = sym_choice("cut", list(range(0, len(frames) + 1)))
+        try:
+            res = []
+            for fs in (frames[:j], frames):
+                out, sessions = P.run_quic(mods, fs, P.keylog_objects(mods, keylog))
+                pl = [x for x in P.udp_payloads(out, ep)]
+                res.append({d: P.concat([x[1] for x in pl if x[0] == d]) for d in (False, True)})
+        except Exception as e:
+            import traceback
+            c.fail("no-exception", "%s: %s %s" % (type(e).__name__, e, traceback.format_exc().splitlines()[-3:-1]))
+            return {"outcome": "exception"}
+        c.check(True, "no-exception")
+        for d, label in ((False, "client-prefix"), (True, "server-prefix")):
+            a, b = res[0][d], res[1][d]
+            c.check(len(a) <= len(b) and (a == b[:len(a)]), label, "cut after %d of %d datagrams: %d bytes exported, full capture %d" % (j, len(frames), len(a), len(b)))
+        return {"outcome": "cut %d/%d" % (j, len(frames))}
+    return explore_cfg(scenario, cfg, timeout_ms=60000, sample_paths=1, max_paths=100000)
+
+
 def run_config(cfg):
+    if cfg["harness"] == "quic-cut":
+        return _run_quic(cfg)
     from tlv.sx.core import ctx, sym_choice
     from tlv.harness import pipeline as P
     from tlv.harness.common import explore_cfg
@@ -73,7 +119,34 @@ def run_config(cfg):
     return explore_cfg(scenario, cfg, timeout_ms=60000, sample_paths=1, max_paths=100000)
 
 
+def _concrete_quic(cfg, inp):
+    from tlv import e2e
+    from tlv.harness import pipeline as P
+    from tlv.oracle import scenario as SC, quic_scenario as QS
+    dgrams, keylog, meta = QS.build(cfg, SC.ConcreteSrc(inp))
+    ep = P.Endpoint(ipv=cfg.get("ipv", 4))
+    pk = e2e.concrete_udp_frames(ep, dgrams)
+    j = inp.get("cut", 0)
+    outs = []
+    for fs in (pk[:j], pk):
+        if not fs:
+            outs.append({False: b"", True: b""})
+            continue
+        r = e2e.run_tlexport(fs, e2e.keylog_text(keylog))
+        if r["problems"]:
+            return {"ok": False, "problems": r["problems"][:3]}
+        u = e2e.udp_of(r, ep)
+        outs.append({d: b"".join(p for dd, p, t in u if dd == d) for d in (False, True)})
+    problems = []
+    for d in (False, True):
+        if not outs[1][d].startswith(outs[0][d]):
+            problems.append("%s: cut at %d exports %s, full capture exports %s" % ("server" if d else "client", j, outs[0][d].hex(), outs[1][d].hex()))
+    return {"ok": not problems, "problems": problems}
+
+
 def _concrete(cfg, inp):
+    if cfg["harness"] == "quic-cut":
+        return _concrete_quic(cfg, inp)
     from tlv import e2e
     from tlv.harness import pipeline as P
     from tlv.oracle import scenario as SC
